@@ -608,7 +608,7 @@ func (e *Exec) havocLike(hint string, old Val, key interface{}) Val {
 func (e *Exec) runLoop(lp *loopParts) {
 	savedPos := e.curPos
 	if len(e.frames) == 1 || e.frame().closure {
-		e.curPos = lp.node.Pos()
+		e.curPos = lp.body.Lbrace + 1 // inside the loop's scope: for-init and range variables are visible
 	}
 	defer func() { e.curPos = savedPos }()
 	var spec *LoopSpec
